@@ -25,6 +25,13 @@ Theorem C17_collect : forall s c n,
   collect_functions s c n = collect_spec (map (fun c' => get_functions s c' n) (chain c)).
 Proof. exact (fun s c n => collect_functions_spec s n c). Qed.
 
+(* with a predicate (runner.call always passes one: function vs method): the predicate filters every layer's
+   overloads, and an exclusive layer stops the walk even if the predicate leaves nothing of it *)
+Theorem C17_collect_pred : forall pred s c n,
+  collect_pred pred s c n
+  = collect_spec (map (fun c' => (filter pred (fst (get_functions s c' n)), snd (get_functions s c' n))) (chain c)).
+Proof. exact (fun pred s c n => collect_pred_spec pred s n c). Qed.
+
 Theorem C17_layer_functions : forall s c n f,
   (In f (fst (get_functions s c n)) <-> exists p, In p (sources c) /\ plain_has_fn s n f p) /\
   snd (get_functions s c n) = existsb (fun p => smem (rstrip_us n) (pexcl (sget s p))) (sources c).
